@@ -1,15 +1,16 @@
 #!/bin/sh
-# usage: tools/import_seed.sh C06 [suffix]   -- copy a sub-agent's deliverables from /tmp/wt_<id> into /verif/seeded/
+# usage: [WT=/tmp/wt5_] tools/import_seed.sh C06 [suffix]   -- copy a sub-agent's deliverables from /tmp/wt_<id> into /verif/seeded/
 id=$1; suf=${2:-a}
+wt=${WT:-/tmp/wt_}$id
 d=/verif/seeded/${id}${suf}
 mkdir -p $d
-cp /tmp/wt_$id/seed_patch.diff $d/patch.diff
-cp /tmp/wt_$id/seed_demo.py $d/demo.py
-/venv/bin/python - "$id" "$d" <<'PY'
+cp $wt/seed_patch.diff $d/patch.diff
+cp $wt/seed_demo.py $d/demo.py
+/venv/bin/python - "$id" "$d" "$wt" <<'PY'
 import json, sys
 pid, d = sys.argv[1], sys.argv[2]
 try:
-    m = json.load(open('/tmp/wt_%s/seed_meta.json' % pid))
+    m = json.load(open(sys.argv[3] + '/seed_meta.json'))
 except Exception as e:
     m = {'summary': 'meta missing: %r' % e}
 meta = {'property': pid, 'demo': 'demo.py', 'source': 'independent sub-agent (saw only the property text and a scratch worktree of /repo)',
